@@ -133,15 +133,12 @@ func c12r1(c *Ctx, id string) {
 			// (receiver, the ended vBucket[, the current session token])
 			// the arguments by the type of the input they are for: a context or logger threaded through is neither
 			var aVb, aSess AV
-			for i, p := range reopen.Params {
-				if i >= len(goes[0].Args) || i == 0 {
-					continue
-				}
-				if bt, isB := p.Type().Underlying().(*types.Basic); isB && bt.Info()&types.IsInteger != 0 {
+			for _, vp := range vparams(reopen) {
+				if bt, isB := vp.Type().Underlying().(*types.Basic); isB && bt.Info()&types.IsInteger != 0 {
 					if bt.Kind() == types.Uint16 {
-						aVb = goes[0].Args[i]
+						aVb = effectVArg(goes[0], reopen, vp)
 					} else {
-						aSess = goes[0].Args[i]
+						aSess = effectVArg(goes[0], reopen, vp)
 					}
 				}
 			}
@@ -274,10 +271,11 @@ func c12r3(c *Ctx, id string) {
 	c.see(os)
 	// the inputs by type: the vBucket id is the uint16 one, the session token (if any) the other integer; a context or a
 	// logger threaded through the chain is neither
-	paramOf := func(fn *ssa.Function, pick func(types.Type) bool) *ssa.Parameter {
-		for _, p := range fn.Params[1:] {
+	paramOf := func(fn *ssa.Function, pick func(types.Type) bool) *vparam { // parameters, or the fields of a parameter bundle
+		for _, p := range vparams(fn) {
+			p := p
 			if pick(p.Type()) {
-				return p
+				return &p
 			}
 		}
 		return nil
@@ -288,7 +286,7 @@ func c12r3(c *Ctx, id string) {
 	}
 	osVb, roVb, roSess := paramOf(os, isUint16), paramOf(ro, isUint16), paramOf(ro, isSession)
 	c.need(osVb != nil && roVb != nil, id, "the vBucket id inputs of openStream / reopenStream")
-	vb := "param(" + osVb.Name() + ")"
+	vb := osVb.Term()
 	n := 0
 	allInstrs(os, func(in ssa.Instruction) {
 		cc := callOf(in)
@@ -341,7 +339,7 @@ func c12r3(c *Ctx, id string) {
 			allInstrs(ro, func(in ssa.Instruction) {
 				if cc := callOf(in); cc != nil && cc.StaticCallee() != nil && cc.StaticCallee() != os && cc.StaticCallee().Blocks != nil && w.inModule(cc.StaticCallee()) {
 					for _, a := range cc.Args {
-						if unwrap(a) == ssa.Value(roSess) {
+						if w.Origin(a) == roSess.Term() {
 							scan = append(scan, cc.StaticCallee())
 						}
 					}
@@ -387,12 +385,7 @@ func c12r3(c *Ctx, id string) {
 		for _, e := range out.Trace {
 			if e.Name == fname(os) {
 				nOpen++
-				var a AV
-				for i, p := range os.Params {
-					if p == osVb && i < len(e.Args) {
-						a = e.Args[i]
-					}
-				}
+				a := effectVArg(e, os, *osVb)
 				if a == nil || avString(a) != roVb.Name() && !strings.Contains(avString(a), roVb.Name()) {
 					return "reopens another vBucket: " + e.String()
 				}
